@@ -1,13 +1,15 @@
 #!/bin/bash
-# run every registered quick check on the current tree; log rc and time
+# run every registered check on the current tree; log rc and time.  usage: run_all.sh [quick|thorough] [seed]
 cd /verif
 tier=${1:-quick}
-: > .scratch/run_all_$tier.log
+seed=${2:-0}
+log=.scratch/run_all_${tier}_$seed.log
+: > $log
 for p in C01 C02 C03 C04 C05 C06 C07 C08 C09 C10 C11 C12 C13 C14 C15 C16 C17 C18 C19 C20; do
   s=$(date +%s)
-  ./check $p --tier $tier > .scratch/out_${p}_$tier.txt 2>&1
+  VERIF_SEED=$seed ./check $p --tier $tier > .scratch/out_${p}_${tier}_$seed.txt 2>&1
   rc=$?
   e=$(date +%s)
-  echo "$p rc=$rc $((e-s))s viol=$(grep -c '^VIOLATION' .scratch/out_${p}_$tier.txt) known=$(grep -c '^KNOWN-FINDING' .scratch/out_${p}_$tier.txt)" >> .scratch/run_all_$tier.log
+  echo "$p rc=$rc $((e-s))s viol=$(grep -c '^VIOLATION' .scratch/out_${p}_${tier}_$seed.txt) known=$(grep -c '^KNOWN-FINDING' .scratch/out_${p}_${tier}_$seed.txt)" >> $log
 done
-echo done >> .scratch/run_all_$tier.log
+echo done >> $log
